@@ -598,4 +598,17 @@ theorem region_wellScoped (k : Kernel) (tys : List Nat) (h : tys.length = k.nOpe
     simp [equivalentRegion, Body.wellScoped, scopedOps, scopedRefs]
 
 
+theorem findAccFixed_some {k : Kernel} {tys : List Nat} {a : Acc} : ∀ {l : List Acc},
+    findAccFixed k tys l = some a → a ∈ l ∧ matchSupportedFixed k tys a.supported = true
+  | [], h => by simp [findAccFixed] at h
+  | x :: rest, h => by
+    unfold findAccFixed at h
+    split at h
+    · next hm =>
+      simp only [Option.some.injEq] at h
+      subst h
+      exact ⟨by simp, hm⟩
+    · obtain ⟨h1, h2⟩ := findAccFixed_some h
+      exact ⟨by simp [h1], h2⟩
+
 end SnaxVerif.Kernel
